@@ -31,6 +31,7 @@ structure Pres (P : Params) (S : Blk → Prop) (A : Nat → Prop) (Q : State →
   store : ∀ s b s', Q s → S b → storeBlock s b = some s' → Q s'
   poolAdd : ∀ s t, Q s → A t → Q { s with pool := s.pool ++ [t] }
   poolDel : ∀ s h, Q s → Q { s with pool := s.pool.filter (fun p => P.key p != h) }
+  restart : ∀ s, Q s → Q (restart P s)
 
 variable {P : Params} {S : Blk → Prop} {A : Nat → Prop} {Q : State → Prop}
 
@@ -391,6 +392,7 @@ def EvOk (S : Blk → Prop) (A : Nat → Prop) : Ev → Prop
   | .deliver b _ => S b
   | .poolAdd h => A h
   | .poolDel _ => True
+  | .restart => True
 
 theorem Pres.step (hP : Pres P S A Q) (s : State) (ev : Ev) (hev : EvOk S A ev) (h : QS S Q s) :
     QS S Q (step P s ev) := by
@@ -400,8 +402,11 @@ theorem Pres.step (hP : Pres P S A Q) (s : State) (ev : Ev) (hev : EvOk S A ev) 
     simp only [C27.step, poolPush]
     split
     · exact h
-    · exact ⟨hP.poolAdd s x h.1 hev, h.2⟩
+    · split
+      · exact h
+      · exact ⟨hP.poolAdd s x h.1 hev, h.2⟩
   | poolDel x => exact ⟨hP.poolDel s x h.1, h.2⟩
+  | restart => exact ⟨hP.restart s h.1, ⟨by intro o ho; simp [C27.step, C27.restart] at ho, h.2.2⟩⟩
 
 theorem Pres.run (hP : Pres P S A Q) : ∀ (evs : List Ev) (s : State), (∀ e ∈ evs, EvOk S A e) →
     QS S Q s → QS S Q (run P s evs) := by
